@@ -86,22 +86,31 @@ def check_twins(case: t.Any, ctx: Ctx, oracle: t.Callable[..., t.List[Violation]
     b = twins.twin(a, case["mode"], case["mask"])
     ctx.event(f"twin:{case['mode']}:{'differs' if b != a else 'identical'}")
     opts = absval.default_options()
-    try:
-        # the twin goes first
-        data = absval.to_lib(b).pack(opts)
-        if unpack:
-            absval.lib_unpack(data, opts)
-    except Exception:
-        ctx.event("twin-raised")
     def tag(v: Violation, label: str, what: str) -> Violation:
         # encoding deviations are labelled by where in the encoding they sit, whatever happened before
         return Violation(v.key if v.key.startswith("deviation=") else f"{label}:{v.key}", f"{what}: {v.detail}")
 
+    if case["mode"] == "unencodable" and b != a:
+        # a message with text that has no UTF-8 encoding: packing it fails (part-way through) - or, if bytes are
+        # produced after all, they denote that very message; then the real message is checked
+        ctx.extra_evaluations += 1
+        bad = [tag(v, "unencodable-text", f"{b!r}") for v in oracle(b) if not v.key.startswith("pack:")]
+        if bad:
+            return bad
+        ctx.event("twin-raised")
+    else:
+        try:
+            # the twin goes first
+            data = absval.to_lib(b).pack(opts)
+            if unpack:
+                absval.lib_unpack(data, opts)
+        except Exception:
+            ctx.event("twin-raised")
     out = [tag(v, "after-twin", f"after processing the twin {b!r}") for v in oracle(a)]
-    if not out and b != a:
+    if not out and b != a and case["mode"] != "unencodable":
         ctx.extra_evaluations += 1
         out = [tag(v, "after-twin", f"after processing {a!r}") for v in oracle(b)]
-    if out:
+    if out or case["mode"] == "unencodable":
         return out
     # the object that was just packed is edited in place (its list fields take the twin's elements) and packed again
     try:
